@@ -13,8 +13,8 @@ M64 = (1 << 64) - 1
 # type index -> (size, alignment); harness.cpp checks sizeof / ItemTraits::GetAlignment / alignof against this table
 TYPES = {0: (1, 1), 1: (2, 2), 2: (4, 4), 3: (8, 8), 4: (3, 1), 5: (6, 2), 6: (12, 4), 7: (16, 16), 8: (16, 16),
          9: (32, 8), 10: (16, 8), 11: (24, 8), 12: (16, 16), 13: (48, 16), 14: (5, 1), 15: (16, 8)}
-PAIRS = [(0, 3), (9, 2), (10, 7), (12, 4), (1, 11), (13, 0), (3, 3)]
-TRIPLES = [(0, 10, 3), (4, 12, 9), (2, 5, 13)]
+PAIRS = [(0, 3), (9, 2), (10, 7), (12, 4), (1, 11), (13, 0), (3, 3), (10, 12)]
+TRIPLES = [(0, 10, 3), (4, 12, 9), (2, 5, 13), (11, 13, 10)]
 CONFIGS = [(4, 0), (4, 1), (5, 0), (6, 1), (7, 0), (8, 0), (8, 1), (15, 0)]
 NAMES = ['id', 'name', 'price', 'count', 'date', 'flag', 'weight', 'x', 'y', 'z', 'key', 'value', 'parent', 'child',
          'first', 'second', 'intCol', 'dblCol', 'strCol', 'row', 'a', 'b', 'c', 'col0', 'col1', 'col2', 'col3']
@@ -197,10 +197,17 @@ def check_case(case, out):
         return 'harness problem: ' + out[:200], False
     L, keep, ops, universe = parse_case(case)
     segs = out.split(' ; ')
-    if len(segs) != len(ops) + 1:
+    if len(segs) != len(ops) + 2:
         return 'output has %d segments for %d ops' % (len(segs), len(ops)), False
-    if segs[-1] != 'raw ok':
-        return 'raw create/import/destroy: ' + segs[-1], False
+    if segs[-2] != 'raw ok':
+        return 'raw create/import/destroy: ' + segs[-2], False
+    # event traces: every instrumented item constructed at most once, and destroyed iff constructed
+    for sc in segs[-1][3:].split('|'):
+        evs = sc.split(':', 1)[1].split() if ':' in sc else []
+        for c in set(e[1:] for e in evs):
+            if evs.count('C' + c) != 1 or evs.count('D' + c) != 1 or evs.index('C' + c) > evs.index('D' + c):
+                return 'row life cycle: item of column %s not constructed once then destroyed once in "%s"' % (c, sc.strip()), False
+    segs = segs[:-1]
     slot = 8 if keep else 0
     prev_body = None
     cols = []            # (code, size, align, off) as recorded by the oracle
@@ -362,7 +369,7 @@ def run(ctx):
         else:
             why, nt = check_case(c, out) if i < len(lines) else (out, False)
             if nt: ctx.nontrivial.add(c)
-            for seg in out.split(' ; ')[:-1]:
+            for seg in out.split(' ; ')[:-2]:
                 dist['ops'] += 1
                 dist['added'] += seg.startswith('A'); dist['refused'] += seg.startswith('R'); dist['too_many'] += seg.startswith('T')
                 dist['retries'] += (seg.startswith('A') and not seg.startswith('A 0 '))
